@@ -39,7 +39,7 @@ var solvers = []solverSpec{
 }
 
 // confirmBudget: thorough tier, time a second solver gets to confirm an unsat answer
-const confirmBudget = 20 * time.Second
+const confirmBudget = 8 * time.Second
 
 type SolverPool struct {
 	cacheDir string
